@@ -68,7 +68,7 @@ NoMsg == [k |-> "none", t |-> "-", f |-> "-"]
 (* ---------- _handle_condition, written like the code ---------- *)
 \* returns the object record after the condition was handled and whether the call raises
 Handle(o) ==
-    LET condRaises == o.out = "CR"
+    LET condRaises == o.out \in {"CR", "CX"}     \* "CX": the condition ends with SystemExit, not an Exception
         met0 == o.out \in {"T", "MR"}                 \* value returned by condition()
         \* _get_message() raises inside the try block: fields missing ("MR"), or the template uses a format
         \* ("kwcustom": '{x:shout}') that only formatter F3 -- a subclass that EXTENDS the list of formats -- provides
@@ -101,7 +101,7 @@ Attach(o, i) == /\ active' = IF o.list = "active" THEN Append(active, i) ELSE ac
 \* par: the `parent` keyword -- "none", or "str": a section named by a plain string (bookkeeping is the same)
 Create(cls, mk, out, delay, par) ==
     /\ CanAct /\ Len(objs) < MaxObjs
-    /\ ~(mk = "explicit" /\ out = "MR") /\ ~(cls = "T" /\ out = "CR") /\ ~(cls = "T" /\ mk \in {"kwnested", "kwcustom", "kwattr", "kwhostile"})
+    /\ ~(mk = "explicit" /\ out = "MR") /\ ~(cls = "T" /\ out \in {"CR", "CX"}) /\ ~(cls = "T" /\ mk \in {"kwnested", "kwcustom", "kwattr", "kwhostile"})
     /\ delay => cls \in DelayCls
     /\ LET o0 == [cls |-> cls, mk |-> mk, out |-> out, eff |-> out, status |-> "delayed", truth |-> FALSE,
                   list |-> "none", msg |-> NoMsg]
@@ -218,11 +218,11 @@ RightList == \A i \in 1..Len(objs) : objs[i].list # "none" =>
     /\ (i \in Ids(ignored)) <=> (objs[i].eff # "T")
 Truth == \A i \in 1..Len(objs) : objs[i].status # "delayed" => (objs[i].truth <=> objs[i].eff = "T")
 ErrorPath == \A i \in 1..Len(objs) : objs[i].status # "delayed" =>
-    (objs[i].eff \in {"CR", "MR"} <=> objs[i].status = "error")
+    (objs[i].eff \in {"CR", "CX", "MR"} <=> objs[i].status = "error")
 \* the exception reaches the caller exactly when the condition or the message raised
 RaisesToCaller == hist # <<>> /\ Last.op \in {"create", "handle"} =>
     LET i == IF Last.op = "create" THEN Len(objs) ELSE Last.i IN
-    objs[i].status # "delayed" => (raised <=> objs[i].eff \in {"CR", "MR"})
+    objs[i].status # "delayed" => (raised <=> objs[i].eff \in {"CR", "CX", "MR"})
 MessageDerivation == \A i \in 1..Len(objs) : objs[i].status = "active" =>
     LET m == objs[i].msg IN
     /\ (objs[i].mk = "explicit") => m.k = "explicit"
